@@ -596,6 +596,28 @@ func ruleDirWiring(c *Ctx, rule string) {
 				}
 			}
 			c.CheckAt(rule, fmt.Sprintf("%s:param#%d->%s", short(f), pi, w[pi-1]), call, dir == w[pi-1], fmt.Sprintf("size parameter %d of %s is reported under direction %q, expected %q", pi, f.Name(), dir, w[pi-1]))
+			// the report of one size never depends on the other size (an early return on "nothing sent" would drop the bytes
+			// that were received: an empty datagram still has a wire size)
+			other := ""
+			for _, b := range f.Blocks {
+				iff, ok := b.Instrs[len(b.Instrs)-1].(*ssa.If)
+				if !ok {
+					continue
+				}
+				r0, r1 := eng.ReachBlocks(b.Succs[0], nil), eng.ReachBlocks(b.Succs[1], nil)
+				r0[b.Succs[0]], r1[b.Succs[1]] = true, true
+				if r0[call.Block()] == r1[call.Block()] {
+					continue
+				}
+				for _, o := range p.Origins(iff.Cond, eng.OriginOpts{ThroughBinOp: true, ThroughConvert: true}) {
+					for i, pa := range f.Params {
+						if o == ssa.Value(pa) && i != pi && (i == 1 || i == 2) {
+							other = pa.Name()
+						}
+					}
+				}
+			}
+			c.CheckAt(rule, fmt.Sprintf("%s:param#%d:reported-whatever-the-other-size", short(f), pi), call, other == "", fmt.Sprintf("whether size parameter %d of %s is reported depends on the other size (%s): bytes of a datagram whose counterpart is empty are dropped from the counters", pi, f.Name(), other))
 		}
 	}
 	c.Floor(rule, "direction-mapping functions in the proxy collector", n, 2)
